@@ -50,6 +50,18 @@ theorem chainMatches_pathSealsOf (o : EncapOut) (s0 : Sec) (idx : Nat) :
 
 /-! ### a receiver is not stuck -/
 
+theorem recvPathI_eq_ok {init : Sec} {t1 : Tree} {o : EncapOut} {seals : List PathSeal} {sender : Nat} {e : Edits}
+    {added : List Nat} {psk : Sec} {ctx : Nat} {m : Member} {d : DecapOut} {ps : PathSeal} {r k : Nat}
+    (hd : decap o.tree (provisionalPriv t1 m.priv (ownUpdate e m.priv.self)) sender o.pathKeys added = .ok d)
+    (hps : seals[countSome (o.pathKeys.take (lcaIndex m.priv.self sender))]? = some ps)
+    (hr : ps.recips[d.ctPos]? = some (r, some k))
+    (hk : (provisionalPriv t1 m.priv (ownUpdate e m.priv.self)).keys[d.slot]? = some (some k))
+    (hcm : chainMatches seals (countSome (o.pathKeys.take (lcaIndex m.priv.self sender))) ps.secret = true) :
+    ∃ m', recvPathI init t1 o seals sender e added psk ctx m = .ok m' := by
+  unfold recvPathI
+  simp only [hd, hps, hr, hk, hcm, if_true]
+  exact ⟨_, rfl⟩
+
 theorem recvPath_eq_ok {t1 : Tree} {o : EncapOut} {seals : List PathSeal} {sender : Nat} {e : Edits}
     {added : List Nat} {psk : Sec} {ctx : Nat} {m : Member} {d : DecapOut} {ps : PathSeal} {r k : Nat}
     (hd : decap o.tree (provisionalPriv t1 m.priv (ownUpdate e m.priv.self)) sender o.pathKeys added = .ok d)
@@ -57,10 +69,8 @@ theorem recvPath_eq_ok {t1 : Tree} {o : EncapOut} {seals : List PathSeal} {sende
     (hr : ps.recips[d.ctPos]? = some (r, some k))
     (hk : (provisionalPriv t1 m.priv (ownUpdate e m.priv.self)).keys[d.slot]? = some (some k))
     (hcm : chainMatches seals (countSome (o.pathKeys.take (lcaIndex m.priv.self sender))) ps.secret = true) :
-    ∃ m', recvPath t1 o seals sender e added psk ctx m = .ok m' := by
-  unfold recvPath
-  simp only [hd, hps, hr, hk, hcm, if_true]
-  exact ⟨_, rfl⟩
+    ∃ m', recvPath t1 o seals sender e added psk ctx m = .ok m' :=
+  recvPathI_eq_ok hd hps hr hk hcm
 
 section Path
 variable {w : GroupWorld} {sender : Nat} {e : Edits} {nl : Leaf} {fresh : Nat} {psk : Sec} {ctx : Nat}
@@ -267,5 +277,85 @@ theorem commit_progress {w : GroupWorld} {sender : Nat} {e : Edits} {newLeaf : O
       simp [joinerPriv, pure, Except.pure])
     simp only [hjs]
     exact ⟨_, rfl⟩
+
+/-! ### external commits -/
+
+/-- the receivers' uniqueness check of the update path's leaf node passes when its stamps are new -/
+theorem ext_noconf {t0 t1 t1x : Tree} {rs : List Nat} {L0 nl : Leaf} {self fresh : Nat}
+    (hx : ExtEdit t0 rs L0 t1 self t1x) (hp : PathOk t1x self nl fresh) : conflicts t1 nl = false := by
+  obtain ⟨_, h2, _, h4⟩ := hp
+  have hes := batchEdit_editSpec hx.wf1.1.1 hx.second
+  rw [conflicts_false_iff]
+  intro x L hg
+  have hx1 : x < t1.length := lt_of_get_some hg
+  have hev : x % 2 = 0 := by
+    apply Classical.byContradiction; intro hc
+    have := (hx.wf1.1.1.1 x hx1).2 (by omega)
+    rw [hg] at this; cases this
+  obtain ⟨j, rfl⟩ : ∃ j, x = 2 * j := ⟨x / 2, by omega⟩
+  have hblank : get t1 (2 * self) = none := by
+    rcases hes.added_fresh self (by simp) with h | h
+    · cases h
+    · exact h
+  have hne : j ≠ self := by
+    rintro rfl; rw [hblank] at hg; cases hg
+  have hgx : get t1x (2 * j) = some (.leaf L) := by
+    rw [hes.leaves_kept j (by simp [Edits.touched]) (by simpa using hne)]; exact hg
+  obtain ⟨a1, a2⟩ := newLeafOkB_spec h4 (2 * j) L (by omega) hgx
+  refine ⟨a1, ?_, a2⟩
+  intro heq
+  exact h2 (heq ▸ mem_keyStamps.2 ⟨_, _, hgx, rfl⟩)
+
+/-- a member that the external commit does not remove is not stuck -/
+theorem ext_recv_progress {t0 t1 t1x : Tree} {rs : List Nat} {L0 nl : Leaf} {self fresh : Nat} {o : EncapOut}
+    (hx : ExtEdit t0 rs L0 t1 self t1x) (he : encap t1x self nl [] fresh = .ok o)
+    {m : Member} (hk : KeyInv t0 m.priv) (hm : ∃ L, get t0 (2 * m.priv.self) = some (.leaf L))
+    (ht : m.priv.self ∉ rs) (init s0 psk : Sec) (ctx : Nat) :
+    ∃ m', recvPathI init t1x o (pathSealsOf o s0) self noEdits [] psk ctx m = .ok m' := by
+  obtain ⟨_, _, d, hd, _, _, cp, resNode, key, k0, c1, c2, c4, c5, c6⟩ := ext_receiver hx he hk hm ht
+  have hps := pathSealsOf_getElem? he s0 c1 c2
+  refine recvPathI_eq_ok (by rw [ownUpdate_noEdits]; exact hd) hps (r := resNode) (k := key) ?_
+    (by rw [ownUpdate_noEdits]; exact c5) ?_
+  · simp only [List.getElem?_map, c4, Option.map_some, c6]
+  · exact chainMatches_pathSealsOf o s0 _
+
+/-- **Progress of an external commit.**  In a world satisfying the invariant, an external commit built from the
+GroupInfo of a followed current member, whose Remove (if any) applies and whose new leaf finds a place, under the
+side conditions `ExtOk` (new stamps are new), succeeds — the joiner's `encap` is total, the receivers' check of
+the path leaf passes, their tree is the joiner's — and is processed by *every* current member it is delivered to
+(other than the removed one), whatever `deliverTo` is. -/
+theorem ext_progress {w : GroupWorld} {gi : Nat} {remove : Option Nat} {L0 nl : Leaf} {fresh : Nat} {psk : Sec}
+    {ctx : Nat} {gm : Member} {a : List Nat} {t1 t1x : Tree} {self : Nat} (deliverTo : List Nat)
+    (hi : GInv w) (hok : ExtOk w remove L0 nl fresh) (hpsk : psk.isPskInput = true)
+    (hgm : w.sender? gi = some gm) (hb : batchEdit w.tree (extEdits remove) = .ok (a, t1))
+    (hadd : addLeaf t1 L0 0 = .ok (self, t1x)) :
+    ∃ r, w.externalCommit gi remove L0 nl fresh psk ctx deliverTo = .ok r := by
+  obtain ⟨hgm1, hgm2, _⟩ := sender?_spec hgm
+  have hx : ExtEdit w.tree remove.toList L0 t1 self t1x :=
+    (extEdit_of hi.good.1 (hb : batchEdit w.tree ⟨remove.toList, [], []⟩ = _) hadd (hok.fresh0 hb)).2
+  have hp := hok.pathOk hb hadd
+  have hL : ∃ L, get t1x (2 * self) = some (.leaf L) := ⟨L0, hx.leaf⟩
+  have hself := self_lt_of_leaf hL
+  obtain ⟨o, he⟩ := encap_total hx.wfx.1.1 hself nl [] fresh
+  have ha := encap_applyUpdatePath_agree hL he
+  have hnc := ext_noconf hx hp
+  unfold GroupWorld.externalCommit
+  simp only [hpsk, hgm, hb, hadd, hnc, he, ha, Bool.not_true, Bool.false_eq_true, if_false, ne_eq,
+    not_true_eq_false]
+  obtain ⟨ms, hms⟩ := mapE_progress (l := w.members)
+      (f := advExt w remove deliverTo t1x o (pathSealsOf o (.fresh w.epoch)) self psk ctx gm.secret) (by
+    intro m hmw
+    unfold advExt
+    cases hpr : processesExt w remove deliverTo m with
+    | false => exact ⟨m, by simp⟩
+    | true =>
+      obtain ⟨h1, h2, _⟩ := processesExt_iff.1 hpr
+      have hsec : m.secret = gm.secret := hi.agree m hmw gm hgm1 (by rw [h1, hgm2])
+      obtain ⟨hLm, hkm⟩ := hi.good.2 _ (mem_toWorld.2 ⟨m, hmw, h1, rfl⟩)
+      obtain ⟨m', hm'⟩ := ext_recv_progress hx he hkm hLm (not_mem_toList h2) (.ext w.epoch) (.fresh w.epoch)
+        psk ctx
+      exact ⟨m', by simp [hsec, hm']⟩)
+  simp only [hms]
+  exact ⟨_, rfl⟩
 
 end MlsVerif.Group
